@@ -5,6 +5,7 @@ import ast
 from ..index import unparse, iter_own_nodes, AnalysisError
 from ..cfg import calls_in_node
 from ..framework import stores_to_name, assigned_values
+from .. import exprs as X
 from . import common
 
 EXPLANATION = (
@@ -334,46 +335,219 @@ def rule_add_dispatch(chk):
 def rule_model(chk, prefix="C09"):
     """The immutable tree-node model the parser relies on: TaskLevel is a value type keyed
     by its list; WrittenMessage/WrittenAction read uuid/level from the logged dict, accept a
-    child only for the same task and the directly enclosing level, and order children by level."""
+    child only for the same task and the directly enclosing level, and order children by level.
+    Decided on the expression trees (single-assignment temporaries substituted), not on source text."""
     ctx = chk.ctx
-    tl = ctx.cls("_action", "TaskLevel")
-
-    def body_text(m):
-        return " ; ".join(unparse(s) for s in m.node.body if not (isinstance(s, ast.Expr) and isinstance(s.value, ast.Constant)))
-    par = tl.find_method("parent")
-    t = body_text(par)
-    okp = "return None" in t and "self._level[:-1]" in t and ("if not self._level" in t or "len(self._level) == 0" in t or "self._level == []" in t)
-    chk.req(okp, "%s.model" % prefix, "TaskLevel.parent:drops-the-last-position", chk.where(par), good="None for the root level, else the level without its last element",
-            fail="TaskLevel.parent is `%s`" % t[:100])
-    eq, hs = tl.find_method("__eq__"), tl.find_method("__hash__")
-    te, th = body_text(eq), body_text(hs)
-    chk.req("self._level == other._level" in te and "return False" in te, "%s.model" % prefix, "TaskLevel.__eq__:by-level-list", chk.where(eq), good="equal iff same class and same level list", fail="TaskLevel.__eq__ is `%s`" % te[:100])
-    chk.req(th == "return hash(tuple(self._level))", "%s.model" % prefix, "TaskLevel.__hash__:of-the-level-tuple", chk.where(hs), good="hash(tuple(level))", fail="TaskLevel.__hash__ is `%s` (nodes are keyed by TaskLevel)" % th[:80])
-    for nm, op in (("__lt__", "<"), ("__le__", "<="), ("__gt__", ">"), ("__ge__", ">=")):
-        m = tl.find_method(nm)
-        tt = body_text(m)
-        chk.req(tt == "return self._level %s other._level" % op, "%s.model" % prefix, "TaskLevel.%s:list-order" % nm, chk.where(m), good="lexicographic order of the level lists", fail="TaskLevel.%s is `%s`" % (nm, tt[:80]))
-    wm = ctx.cls("_message", "WrittenMessage")
     p = ctx.p
+    tl = ctx.cls("_action", "TaskLevel")
+    init = tl.find_method("__init__")
+    chk.need(init is not None and len(init.pos_params) >= 2, "TaskLevel.__init__(self, level) not found")
+    lparam = init.pos_params[1]
+    L = None
+    for n in iter_own_nodes(init.node):
+        if isinstance(n, ast.Assign) and isinstance(n.value, ast.Name) and n.value.id == lparam and common.is_self_attr(n.targets[0]):
+            L = n.targets[0].attr
+    chk.need(L is not None, "TaskLevel.__init__ does not store its level argument in an attribute")
+
+    def lvl(base):
+        """predicate: expression denotes <base>'s level list (the attribute itself, a slice copy of it or as_list())"""
+        def pred(e):
+            if X.is_attr(e, base, L):
+                return True
+            if isinstance(e, ast.Subscript) and X.is_attr(e.value, base, L) and isinstance(e.slice, ast.Slice) and e.slice.lower is None and e.slice.upper is None:
+                return True
+            return isinstance(e, ast.Call) and isinstance(e.func, ast.Attribute) and e.func.attr == "as_list" and isinstance(e.func.value, ast.Name) and e.func.value.id == base and not e.args
+        return pred
+
+    def is_tasklevel_ctor(f, e):
+        """TaskLevel(level=<x>) / TaskLevel(<x>) / self.__class__(...) / type(self)(...): returns <x> or None"""
+        if not isinstance(e, ast.Call):
+            return None
+        fn = e.func
+        okc = False
+        if isinstance(fn, ast.Name):
+            r = p.resolve_name(f.module, f, fn.id)
+            okc = r[0] == "class" and r[1] is tl or (fn.id in ("cls", "klass") and f.cls is tl)
+        elif isinstance(fn, ast.Attribute) and fn.attr == "__class__" and isinstance(fn.value, ast.Name) and fn.value.id == "self" and f.cls is tl:
+            okc = True
+        elif isinstance(fn, ast.Call) and isinstance(fn.func, ast.Name) and fn.func.id == "type" and len(fn.args) == 1 and isinstance(fn.args[0], ast.Name) and fn.args[0].id == "self" and f.cls is tl:
+            okc = True
+        if not okc:
+            return None
+        if len(e.args) == 1 and not e.keywords:
+            return e.args[0]
+        if not e.args and len(e.keywords) == 1 and e.keywords[0].arg == lparam:
+            return e.keywords[0].value
+        return None
+
+    def empty_test(e, label):
+        """does taking branch `label` of test e imply that self's level list is empty?"""
+        e, label = X.strip_not(e, label)
+        if lvl("self")(e):
+            return label == "false"
+        if isinstance(e, ast.Compare) and len(e.ops) == 1:
+            a, b, op = e.left, e.comparators[0], type(e.ops[0])
+            is_len = lambda x: isinstance(x, ast.Call) and isinstance(x.func, ast.Name) and x.func.id == "len" and len(x.args) == 1 and lvl("self")(x.args[0])
+            num = lambda x: x.value if isinstance(x, ast.Constant) and isinstance(x.value, int) else None
+            if is_len(a) and num(b) is not None:
+                k = num(b)
+                table = {(ast.Eq, 0): "true", (ast.NotEq, 0): "false", (ast.Lt, 1): "true", (ast.GtE, 1): "false", (ast.Gt, 0): "false", (ast.LtE, 0): "true"}
+                return table.get((op, k)) == label
+            if lvl("self")(a) and isinstance(b, (ast.List, ast.Tuple)) and not b.elts:
+                return (op is ast.Eq and label == "true") or (op is ast.NotEq and label == "false")
+        return False
+
+    # parent(): None exactly for the empty level, otherwise the level without its last element
+    par = tl.find_method("parent")
+    pcfg = ctx.cfg(par)
+    env = X.single_assignments(par)
+    problems = []
+    n_none = n_cut = 0
+    for rn in [n for n in pcfg.live if n.kind == "return"]:
+        v = X.inline(par, rn.ast.value, env) if rn.ast.value is not None else None
+        if v is None or X.is_const(v, None):
+            n_none += 1
+            if not any(t.kind == "test" and empty_test(t.exprs[0], lab) for t, lab in pcfg.guards_of(rn)):
+                problems.append("returns None where the level is not known to be empty (line %d)" % rn.lineno)
+            continue
+        arg = is_tasklevel_ctor(par, v)
+        okcut = arg is not None and isinstance(arg, ast.Subscript) and lvl("self")(arg.value) and isinstance(arg.slice, ast.Slice) and arg.slice.step is None \
+            and (arg.slice.lower is None or X.is_const(arg.slice.lower, 0)) and isinstance(arg.slice.upper, ast.UnaryOp) and isinstance(arg.slice.upper.op, ast.USub) \
+            and X.is_const(arg.slice.upper.operand, 1)
+        if okcut:
+            n_cut += 1
+        else:
+            problems.append("returns `%s`, not TaskLevel(<level>[:-1])" % X.text(v)[:60])
+    if not n_none or not n_cut:
+        problems.append("needs both a None return for the root level and a TaskLevel(<level>[:-1]) return")
+    chk.req(not problems, "%s.model" % prefix, "TaskLevel.parent:drops-the-last-position", chk.where(par), good="None for the root level, else the level without its last element",
+            fail="TaskLevel.parent: %s" % "; ".join(problems))
+
+    def class_test(e):
+        return any((isinstance(x, ast.Attribute) and x.attr == "__class__") or (isinstance(x, ast.Call) and isinstance(x.func, ast.Name) and x.func.id in ("isinstance", "type")) for x in ast.walk(e))
+
+    # __eq__: by level list (a class test may come first)
+    eq = tl.find_method("__eq__")
+    oparam = eq.pos_params[1] if len(eq.pos_params) > 1 else "other"
+    problems, n_cmp = [], 0
+    for rn, v in X.returns(eq):
+        vals = v.values if isinstance(v, ast.BoolOp) and isinstance(v.op, ast.And) else [v]
+        if X.compare_of(vals[-1], lvl("self"), lvl(oparam)) is ast.Eq and all(class_test(x) for x in vals[:-1]):
+            n_cmp += 1
+        elif v is not None and (X.is_const(v, False) or (isinstance(v, ast.Name) and v.id == "NotImplemented")):
+            pass
+        else:
+            problems.append("returns `%s`" % X.text(v)[:60])
+    chk.req(n_cmp >= 1 and not problems, "%s.model" % prefix, "TaskLevel.__eq__:by-level-list", chk.where(eq), good="equal iff same class and same level list",
+            fail="TaskLevel.__eq__ does not compare the level lists (%s)" % ("; ".join(problems) or "no level comparison returned"))
+    # __hash__: of the level tuple
+    hs = tl.find_method("__hash__")
+    rv = X.returns(hs)
+    okh = len(rv) == 1 and isinstance(rv[0][1], ast.Call) and isinstance(rv[0][1].func, ast.Name) and rv[0][1].func.id == "hash" and len(rv[0][1].args) == 1 \
+        and isinstance(rv[0][1].args[0], ast.Call) and isinstance(rv[0][1].args[0].func, ast.Name) and rv[0][1].args[0].func.id == "tuple" \
+        and len(rv[0][1].args[0].args) == 1 and lvl("self")(rv[0][1].args[0].args[0])
+    chk.req(okh, "%s.model" % prefix, "TaskLevel.__hash__:of-the-level-tuple", chk.where(hs), good="hash(tuple(level))",
+            fail="TaskLevel.__hash__ returns `%s` (nodes are keyed by TaskLevel: equal levels must hash equally, and only those reliably)" % "; ".join(X.text(v)[:60] for _, v in rv))
+    for nm, op in (("__lt__", ast.Lt), ("__le__", ast.LtE), ("__gt__", ast.Gt), ("__ge__", ast.GtE)):
+        m = tl.find_method(nm)
+        op2 = m.pos_params[1] if len(m.pos_params) > 1 else "other"
+        rv = X.returns(m)
+        oko = len(rv) >= 1 and all(X.compare_of(v, lvl("self"), lvl(op2)) is op for _, v in rv)
+        chk.req(oko, "%s.model" % prefix, "TaskLevel.%s:list-order" % nm, chk.where(m), good="lexicographic order of the level lists",
+                fail="TaskLevel.%s returns `%s`" % (nm, "; ".join(X.text(v)[:60] for _, v in rv)))
+    # WrittenMessage: identity read from the logged dictionary
+    wm = ctx.cls("_message", "WrittenMessage")
     msg = p.mod("_message")
     for prop, const in (("task_uuid", "TASK_UUID_FIELD"), ("timestamp", "TIMESTAMP_FIELD"), ("task_level", "TASK_LEVEL_FIELD")):
         m = wm.find_method(prop)
-        tt = body_text(m)
-        want = "self._logged_dict[%s]" % const
-        chk.req(want in tt and ("TaskLevel(level=" in tt) == (prop == "task_level"), "%s.model" % prefix, "WrittenMessage.%s:reads-%s" % (prop, p.fold_global(msg, const)), chk.where(m),
-                good=tt[:70], fail="WrittenMessage.%s is `%s`" % (prop, tt[:80]))
+        want = p.fold_global(msg, const)
+        rv = X.returns(m)
+
+        def reads(e):
+            return isinstance(e, ast.Subscript) and common.is_self_attr(e.value) and ctx.try_fold(m, e.slice) == (True, want)
+        okm = len(rv) == 1 and rv[0][1] is not None
+        if okm:
+            v = rv[0][1]
+            if prop == "task_level":
+                a = is_tasklevel_ctor(m, v)
+                okm = a is not None and reads(a)
+            else:
+                okm = reads(v)
+        chk.req(okm, "%s.model" % prefix, "WrittenMessage.%s:reads-%s" % (prop, want), chk.where(m),
+                good="returns the logged dictionary's %r%s" % (want, " as a TaskLevel" if prop == "task_level" else ""),
+                fail="WrittenMessage.%s returns `%s`" % (prop, "; ".join(X.text(v)[:70] for _, v in rv)))
+    # WrittenAction._validate_message: other task -> WrongTask; not a direct child -> WrongTaskLevel
     wa = ctx.cls("_action", "WrittenAction")
     vm = wa.find_method("_validate_message")
-    tt = body_text(vm)
-    okv = "message.task_uuid != self.task_uuid" in tt and "raise WrongTask" in tt and "message.task_level.parent() == self.task_level" in tt and "raise WrongTaskLevel" in tt
-    chk.req(okv, "%s.model" % prefix, "WrittenAction._validate_message:same-task-direct-child", chk.where(vm), good="rejects other tasks and non-direct children", fail="WrittenAction._validate_message is `%s`" % tt[:120])
-    ac = wa.find_method("_add_child")
-    tt = body_text(ac)
-    chk.req("self._validate_message(message)" in tt and "('_children', level)" in tt.replace('"', "'") and "level = message.task_level" in tt, "%s.model" % prefix, "WrittenAction._add_child:keyed-by-the-child's-level", chk.where(ac),
-            good="validated, then stored under its own level", fail="WrittenAction._add_child is `%s`" % tt[:120])
+    vcfg = ctx.cfg(vm)
+    mparam = vm.pos_params[1]
+
+    def differs(e, label, what):
+        e, label = X.strip_not(e, label)
+        if what == "uuid":
+            op = X.compare_of(e, lambda x: X.is_attr(x, mparam, "task_uuid"), lambda x: X.is_attr(x, "self", "task_uuid"))
+        else:
+            is_par = lambda x: isinstance(x, ast.Call) and isinstance(x.func, ast.Attribute) and x.func.attr == "parent" and not x.args and X.is_attr(x.func.value, mparam, "task_level")
+            op = X.compare_of(e, is_par, lambda x: X.is_attr(x, "self", "task_level"))
+        return (op is ast.NotEq and label == "true") or (op is ast.Eq and label == "false")
+    raised = {}
+    env = X.single_assignments(vm)
+    for rn in [n for n in vcfg.live if n.kind == "raise_stmt"]:
+        exc = rn.ast.exc
+        nm = unparse(exc.func if isinstance(exc, ast.Call) else exc).split(".")[-1] if exc is not None else "?"
+        gs = [(X.inline(vm, t.exprs[0], env), lab) for t, lab in vcfg.guards_of(rn) if t.kind == "test"]
+        raised.setdefault(nm, []).append(gs)
+    okv = bool(raised.get("WrongTask")) and all(any(differs(e, lab, "uuid") for e, lab in gs) for gs in raised.get("WrongTask", [])) \
+        and bool(raised.get("WrongTaskLevel")) and all(any(differs(e, lab, "level") for e, lab in gs) for gs in raised.get("WrongTaskLevel", []))
+    # and nothing lets a wrong message through: from entry, the normal exit is reached only with both tests passed
+    tests = [t for t in vcfg.live if t.kind == "test"]
+    pass_edges_ok = True
+    for what in ("uuid", "level"):
+        ts = [(t, lab) for t in tests for lab in ("true", "false") if differs(X.inline(vm, t.exprs[0], env), lab, what)]
+        if not ts:
+            pass_edges_ok = False
+            continue
+        # every "differs" edge leads to a raise, never to the normal exit
+        for t, lab in ts:
+            for s_, l in t.succ:
+                if l == lab and vcfg.exit in vcfg.reach([s_], skip_labels=("exc",)):
+                    pass_edges_ok = False
+        if not vcfg.must_pass([vcfg.entry], [vcfg.exit], [t for t, _ in ts], skip_labels=("exc",))[0]:
+            pass_edges_ok = False
+    chk.req(okv and pass_edges_ok, "%s.model" % prefix, "WrittenAction._validate_message:same-task-direct-child", chk.where(vm), good="rejects other tasks and non-direct children",
+            fail="WrittenAction._validate_message does not raise WrongTask exactly for another task's message and WrongTaskLevel exactly for a message that is not a direct child (raises: %s)"
+                 % {k: [[(X.text(e)[:50], lab) for e, lab in gs] for gs in v] for k, v in raised.items()})
+    # children: which attribute holds them
     ch = wa.find_method("children")
-    tt = body_text(ch)
-    chk.req("sorted(self._children.values()" in tt and "m.task_level" in tt, "%s.model" % prefix, "WrittenAction.children:ordered-by-level", chk.where(ch), good="children sorted by task_level", fail="WrittenAction.children is `%s`" % tt[:100])
+    C = None
+    for n in iter_own_nodes(ch.node):
+        if isinstance(n, ast.Call) and isinstance(n.func, ast.Name) and n.func.id == "sorted" and n.args:
+            a0 = X.inline(ch, n.args[0])
+            if isinstance(a0, ast.Call) and isinstance(a0.func, ast.Attribute) and a0.func.attr == "values" and common.is_self_attr(a0.func.value):
+                C = a0.func.value.attr
+    chk.req(C is not None, "%s.model" % prefix, "WrittenAction.children:ordered-by-level", chk.where(ch), good="sorted(self.%s.values(), key=task level) (key checked by %s.total)" % (C, prefix),
+            fail="WrittenAction.children does not return sorted(<children map>.values(), ...)")
+    ac = wa.find_method("_add_child")
+    acfg = ctx.cfg(ac)
+    aparam = ac.pos_params[1]
+    env = X.single_assignments(ac)
+    vcalls = [n for n in acfg.live for c, _m in calls_in_node(n) if vm in ctx.targets(ac, c) and len(c.args) == 1 and isinstance(c.args[0], ast.Name) and c.args[0].id == aparam]
+    stores = []
+    for n in acfg.live:
+        for c, _m in calls_in_node(n):
+            if isinstance(c.func, ast.Attribute) and c.func.attr == "transform" and common_is_self(c.func.value) and len(c.args) == 2:
+                key = X.inline(ac, c.args[0], env)
+                val = X.inline(ac, c.args[1], env)
+                if isinstance(key, (ast.Tuple, ast.List)) and len(key.elts) == 2 and isinstance(key.elts[0], ast.Constant) and key.elts[0].value == C \
+                        and X.is_attr(key.elts[1], aparam, "task_level") and isinstance(val, ast.Name) and val.id == aparam:
+                    stores.append(n)
+    oka = bool(vcalls) and bool(stores) and acfg.precedes(vcalls, stores)[0] and not stores_to_name(ac, aparam)
+    chk.req(oka, "%s.model" % prefix, "WrittenAction._add_child:keyed-by-the-child's-level", chk.where(ac),
+            good="validated, then stored under its own level in %s" % C, fail="WrittenAction._add_child does not validate the message and then store it in the children map under the message's own task level")
+
+
+def common_is_self(e):
+    return isinstance(e, ast.Name) and e.id == "self"
 
 
 ORDER_CALLS = {"sorted", "min", "max"}
